@@ -41,6 +41,7 @@ def run(ctx):
     ctx.not_decided = ["termination within a bound depending on program size in general (no ranking argument in reach of this family); only the named guards are decided"]
     a_containment(ctx)
     a_benign_premise(ctx)
+    a_emission_contained(ctx)
     a_position_stores(ctx)
     b_api(ctx)
     c_restart_guards(ctx)
@@ -162,6 +163,22 @@ def a_benign_premise(ctx):
                   "other flows lose the event" % (bad[0].line if bad else i.lineno), line=(bad[0].line if bad else i.lineno))
 
 
+def a_emission_contained(ctx):
+    """Creating the action event of an actionable head can fail for a reason of the flow's own making - the arguments do not form a valid event (`bot say 42`: the event
+    validation asserts a string).  That happens when action conflicts are resolved, outside the per-flow try of _advance_head_front; uncontained, the exception leaves
+    run_to_completion mid-round and heads of OTHER flows stay parked on their `send` statement (F111).  Every call of the emitter is inside a try that fails only that flow."""
+    t = ctx.tree.ast(SM)
+    EMIT = "_generate_action_event_from_actionable_element"
+    sites = [(fn, c) for fn in functions(t) for c in walk_no_nested(fn) if isinstance(c, ast.Call) and src(c.func) == EMIT]
+    ctx.floor("C10.a.emission-contained", SM, "calls of the action event emitter", len(sites), 1)
+    for fn, c in sites:
+        cov = contained(c, fn)
+        ok, why = False, "the call is outside any try/except: an invalid action event raises out of run_to_completion and unrelated flows stay on their send statement"
+        if cov is not None:
+            ok, why = _handler_fails_only_flow(fn, cov[0], cov[1])
+        ctx.check("C10.a.emission-contained", SM, fn.name, first_line(c, 70), ok, why, line=c.lineno)
+
+
 def a_position_stores(ctx):
     """Storing `head.position` runs the index-update callback, which evaluates the element at the new position when it is a `match` (its event name / reference).  A
     faulty match statement (`match $undefined.Finished()`) therefore raises from the STORE.  Every store that can land on a user-written match statement must be inside the
@@ -210,6 +227,19 @@ def _handler_fails_only_flow(fn, tr, h):
              and isinstance(a.targets[0], ast.Name)]
     pushed = any(isinstance(c, ast.Call) and src(c.func) in ("_push_internal_event", "_push_left_internal_event") and any(
         isinstance(x, ast.Name) and x.id in {b.targets[0].id for b in built} for a_ in c.args for x in ast.walk(a_)) for c in walk_no_nested(fn))
+    # direct form: the handler itself aborts the flow at hand and queues `Event(name="ColangError", ...)` (used where the failing call sits in a helper of the per-head loop)
+    direct_push = any(isinstance(c, ast.Call) and src(c.func) in ("_push_internal_event", "_push_left_internal_event") and any(
+        isinstance(x, ast.Call) and src(x.func) == "Event" and "ColangError" in src(x) for a_ in c.args for x in ast.walk(a_)) for st in h.body for c in ast.walk(st))
+    direct_abort = any(isinstance(c, ast.Call) and src(c.func) == "_abort_flow" for st in h.body for c in ast.walk(st))
+    if direct_push and direct_abort:
+        for st in h.body:
+            for x in walk_no_nested(st):
+                if isinstance(x, ast.Call):
+                    f = src(x.func)
+                    if not (f.startswith("log.") or f in ("Event", "str", "type", "hasattr", "_push_internal_event", "_push_left_internal_event", "getattr", "repr", "isinstance",
+                                                          "_abort_flow", "get_flow_state_from_head")):
+                        return False, "the handler calls `%s(...)`, which may raise inside the handler" % f
+        return True, "handler logs, aborts the flow at hand and queues a ColangError event; the caller's loop continues with the next head"
     if "ColangError" not in body or not (("_push_internal_event" in body) or pushed):
         return False, "the handler does not report a ColangError event"
     flags = [s for s in h.body if isinstance(s, ast.Assign) and isinstance(s.targets[0], ast.Name) and src(s.value) == "True"]
